@@ -26,6 +26,8 @@ for _k in kinds.KINDS:
     for _knob in SRC[_k].FRONTIER_KNOBS:
         if not _knob.startswith("cfg:"):
             _F.append("%s|%s" % (_k, _knob))
+# wrapping: prose / summary / type longer than the width, word_wrap on (C18 judges the meaning, here only the fixed point)
+WRAP_KNOBS = tuple("%s|wrap_long" % k for k in kinds.KINDS)
 FRONTIER_KNOBS = tuple(_F)
 FLOORS = {"kind=class": 0.03, "kind=argparse": 0.03, "kind=numpydoc": 0.03, "kind=google": 0.03, "kind=rest": 0.03,
           "kind=function": 0.03, "kind=method": 0.03}
@@ -41,6 +43,15 @@ def mod():
     return sys.modules[__name__]
 
 
+def extra_phases(coll, tier, seed_value, shard, nshards):
+    """Wrapping phase: every kind with word_wrap on and an entry longer than the width."""
+    from ..runner import hyp_survey
+
+    n = 60 if tier == "quick" else 16 * 400 // nshards
+    for i, knob in enumerate(WRAP_KNOBS):
+        hyp_survey(mod(), coll, "frontier", knob, n, (seed_value + 104729 * (i + 1)) % (2 ** 32))
+
+
 def _kind_strategy(kind, mode, knob):
     src = SRC[kind]
     kw = {}
@@ -53,6 +64,9 @@ def _kind_strategy(kind, mode, knob):
 def strategy(mode, knob=None):
     if mode == "frontier":
         kind, k = knob.split("|")
+        if k == "wrap_long":
+            return st.sampled_from(("long_prose", "long_prose", "long_summary", "long_type")).flatmap(
+                lambda lk: _kind_strategy(kind, mode, lk)).map(lambda c: dict(c, opts=dict(c["opts"], word_wrap=True)))
         return _kind_strategy(kind, mode, k)
     return st.sampled_from(kinds.KINDS).flatmap(lambda kind: _kind_strategy(kind, "core", None))
 
@@ -63,6 +77,7 @@ def valid(case):
 
 
 STRICT = Policy()
+WIDTH = 100  # doctrans' default line length; the checks run with DOCTRANS_LINE_LENGTH unset
 
 
 def _tags_of_ir(ir):
@@ -88,6 +103,13 @@ def run_case(case):
         return CaseResult([], tags | {"pass1_failed"}, False, "pass 1 failed (not judged here)")
     c2, tags2 = _tags_of_ir(ir2)
     tags |= tags2
+    if opts.get("word_wrap"):
+        try:
+            flat = kinds.emit_text(kind, domain.to_ir(cir), dict(opts, word_wrap=False))
+            if max(map(len, flat.split("\n"))) > WIDTH:
+                tags.add("unwrapped_exceeds_width")
+        except Exception:
+            pass
     try:
         t2 = kinds.emit_text(kind, ir2, opts)
     except Exception as e:
